@@ -14,11 +14,10 @@ def claim(pid, technique, text, note, ref):
     CLAIMED[pid] = (technique, text, note, ref)
 
 NA = {
- "C01": "Quantifies over values travelling through encoding/json and reflect (nil vs empty, 64-bit extremes, escaping, argument offsets); no structural necessary condition of its own can be decided from the shape of the code without freezing today's index arithmetic as text, which would fire on behaviour-preserving rewrites. The structural clauses it shares with other properties (result XOR error, no handler after an error reply, id echo) are claimed under C09/C12.",
 }
 PENDING = "check not built yet (work in progress; see DESIGN.md section 5 for the plan)"
 
-COMMON_NOTE = "Trusted: go/types and go/ssa of golang.org/x/tools v0.29.0 (vendored), the gorilla/websocket concurrency contract as documented, Go semantics of defer/recover, sync.Mutex/Once and sync/atomic. Roles (which type is the connection, which field the in-flight table, ...) are resolved by type and use on every run; an unresolved role or an unrecognised code shape is reported as a failure, never skipped. The analysis is intraprocedural path analysis with hops over static call sites and closures; reflection targets (user handlers) are opaque."
+COMMON_NOTE = "Trusted: go/types and go/ssa of golang.org/x/tools v0.29.0 (vendored), the gorilla/websocket concurrency contract as documented, Go semantics of defer/recover, sync.Mutex/Once and sync/atomic. Roles (which type is the connection, which field the in-flight table, ...) are resolved by type and use on every run; an unresolved role or an unrecognised code shape is reported as a failure, never skipped. Path queries are interprocedural (virtual inlining of synchronous callees, continuation into callers, path facts) and values are followed through helpers, parameters and closed struct fields; reflection targets (user handlers) are opaque."
 
 exec(open(f"{V}/tools/claims.py").read())
 
@@ -56,7 +55,7 @@ m = {
    "name": "jrpcheck",
    "path": "/verif/checker",
    "serves_properties": sorted(CLAIMED),
-   "kind_free_text": "repository-specific static analyser over go/packages + go/ssa: role resolution by type and use, must/may locksets, instruction-level CFG path rules (must-precede, must-pass-through, must-not-reach), value-origin slicing, close-once typestate, callback must-call summaries; thorough tier additionally self-validates against a corpus of mutants applied to a scratch copy of the current tree",
+   "kind_free_text": "repository-specific static analyser over go/packages + go/ssa: role resolution by type and use, must/may locksets with callee summaries, interprocedural instruction-level path rules (must-precede, must-pass-through, must-not-reach; virtual inlining, path facts), value-origin analysis, linear index forms, close-once typestate, callback must-call summaries; thorough tier additionally self-validates against must-fire variants (own, compound, independently seeded) and must-stay-silent variants (behaviour-preserving refactorings by independent agents) applied to scratch copies of the current tree",
  }],
  "checks": checks,
  "not_applicable": na,
